@@ -351,11 +351,24 @@ func TestVerifC04Admin(t *testing.T) {
 		// ---- requests: one per registered route, then extras (wrong methods, unknown routes, preflights)
 		var reqs []c04Req
 		n := 0
-		mk := func(l string, route c04Route, kind string) {
+		var pbUsers []c04User // rows holding some playback permission: playback requests are mostly aimed at them
+		for _, u := range w.users[:len(w.users)-1] {
+			for _, pm := range u.perms {
+				if pm.action == "playback" {
+					pbUsers = append(pbUsers, u)
+					break
+				}
+			}
+		}
+		mk := func(l string, route c04Route, kind string, forcePath string) {
 			lab := fmt.Sprintf("r%d.", n)
 			n++
 			r := c04Req{listener: l, method: route.method, path: c04Concrete(route.path), query: url.Values{}}
-			r.cl = c04GenClient(t, lab, w.users)
+			if l == "playback" && len(pbUsers) > 0 && rapid.IntRange(0, 3).Draw(t, lab+"aimPlaybackRow") > 0 {
+				r.cl = c04GenClient(t, lab, pbUsers)
+			} else {
+				r.cl = c04GenClient(t, lab, w.users)
+			}
 			if rapid.IntRange(0, 7).Draw(t, lab+"spoofXFF") == 0 {
 				r.spoof = rapid.SampledFrom(c04ClientIPs).Draw(t, lab+"spoof")
 			}
@@ -372,7 +385,10 @@ func TestVerifC04Admin(t *testing.T) {
 			r.known = isKnown(l, r.method, route.path) && kind != "unknown"
 			r.mutating = l == "api" && r.known && r.method != http.MethodGet
 			if l == "playback" {
-				r.pbPath = rapid.SampledFrom([]string{"recA", "recA", "recB", "recB", "cam9", "", "bad name!"}).Draw(t, lab+"pbPath")
+				r.pbPath = forcePath
+				if forcePath == "" {
+					r.pbPath = rapid.SampledFrom([]string{"recA", "recA", "recB", "recB", "cam9", "", "bad name!"}).Draw(t, lab+"pbPath")
+				}
 				if r.pbPath != "" || rapid.Bool().Draw(t, lab+"emptyPathParam") {
 					r.query.Set("path", r.pbPath)
 				}
@@ -383,14 +399,20 @@ func TestVerifC04Admin(t *testing.T) {
 		}
 		for _, l := range []string{"api", "metrics", "pprof", "playback"} {
 			for _, route := range tables[l] {
-				mk(l, route, "route")
+				if l == "playback" {
+					for _, p := range []string{"recA", "recB", "cam9"} {
+						mk(l, route, "route", p)
+					}
+					continue
+				}
+				mk(l, route, "route", "")
 			}
 		}
 		for i := 0; i < extraReqs; i++ {
 			l := rapid.SampledFrom([]string{"api", "api", "metrics", "pprof", "playback", "playback", "playback"}).Draw(t, fmt.Sprintf("x%d.listener", i))
 			route := rapid.SampledFrom(tables[l]).Draw(t, fmt.Sprintf("x%d.route", i))
 			kind := rapid.SampledFrom([]string{"route", "route", "wrongMethod", "preflight", "unknown"}).Draw(t, fmt.Sprintf("x%d.kind", i))
-			mk(l, route, kind)
+			mk(l, route, kind, "")
 		}
 
 		// ---- observer: an admitted reader of the configuration
